@@ -137,7 +137,8 @@ impl MemcStore {
                     })
                     .map(|mut value: u64| {
                         if increment {
-                            value += delta.delta;
+                            // counter wraps around at 2^64
+                            value = value.wrapping_add(delta.delta);
                         } else if delta.delta > value {
                             value = 0;
                         } else {
